@@ -41,7 +41,7 @@ struct Side {
 
 impl Side {
     fn new() -> Self {
-        let dir = tempfile::tempdir().expect("tempdir");
+        let dir = crate::util::scratch_dir();
         let eng = GraphEngine::open(dir.path().join("g.ndb"), dir.path().join("g.wal")).expect("open");
         Side { dir, eng: Some(eng), next_ext: 1 }
     }
